@@ -2571,7 +2571,9 @@ class PyCdlib:
             for rec in self.eltorito_boot_catalog.dirrecords:
                 if isinstance(rec, udfmod.UDFFileEntry):
                     continue
-                if rec.file_ident == found_record.file_ident and rec.parent == found_record.parent:
+                # This has to be the very record of the catalog; a hidden
+                # catalog name may have been given to another file since.
+                if id(rec) == id(found_record):
                     recdata = self.eltorito_boot_catalog.record()
                     outfp.write(recdata)
                     utils.zero_pad(outfp, len(recdata), self.logical_block_size)
